@@ -10,7 +10,9 @@ package discovery
 // too, the counterparty's half through ProcessRemoteAnnouncement; halves are
 // really signed (node key and bitcoin key of the side) and then corrupted as
 // the schedule's attribute says; "RS" stops the gossiper and starts a new one
-// on the same graph and waiting-proof store.  After every call the executor
+// on the same graph and waiting-proof store; "RC" is the full announcement of
+// an own channel coming from the network (a relaying peer) through
+// ProcessRemoteAnnouncement, with one signature corrupted as `bad` says.  After every call the executor
 // records the class of the result, the edge / proof / waiting halves read back
 // from the real stores with Go-only oracle bits (which signatures verify), and
 // what reached the Broadcast callback.  No judgement here:
@@ -21,6 +23,7 @@ import (
 	"fmt"
 	"os"
 	"path/filepath"
+	"strings"
 	"sync"
 	"sync/atomic"
 	"testing"
@@ -41,7 +44,7 @@ import (
 
 // c20PMsg is one schedule entry of GossipProof.tla.
 type c20PMsg struct {
-	T    string `json:"t"`    // LC, AS, RS
+	T    string `json:"t"`    // LC, AS, RS, RC
 	C    int    `json:"c"`    // own channel 1 / 2, unknown channel 9
 	Side string `json:"side"` // local, remote
 	Bad  string `json:"bad"`  // none, nsig, bsig, swap, other
@@ -177,6 +180,7 @@ type c20PGraph struct {
 	Wl  [3][3]int `json:"wl"`  // local half waiting (o = 1, 2, unknown): present, node sig ok, bitcoin sig ok
 	Wr  [3][3]int `json:"wr"`  // remote half waiting
 	Nch int       `json:"nch"` // channels in the graph
+	Rj  [2]int    `json:"rj"`  // reject cache entry (own channel o, the relaying peer)
 }
 
 type c20PLine struct {
@@ -238,6 +242,12 @@ func (e *c20PEnv) projectProof() c20PGraph {
 	}
 	for i, c := range []int{1, 2, 9} {
 		g.Wl[i], g.Wr[i] = e.half(c, false), e.half(c, true)
+	}
+	for o := 1; o <= 2; o++ {
+		key := newRejectCacheKey(lnwire.GossipVersion1, c20OwnScid(o).ToUint64(), c20Pub33(c20PeerKey["p1"]))
+		if _, err := e.g.recentRejects.Get(key); err == nil {
+			g.Rj[o-1] = 1
+		}
 	}
 	vg := graphdb.NewVersionedGraph(e.cg, lnwire.GossipVersion1)
 	_ = vg.ForEachChannel(context.Background(), func(*models.ChannelEdgeInfo, *models.ChannelEdgePolicy,
@@ -304,14 +314,14 @@ func (e *c20PEnv) step(m c20PMsg, out *[]c20PLine) {
 		line.A = "LocalChan"
 		e.chain.setModeAt(c20OwnScid(m.C).BlockHeight, "ok")
 		fut := e.g.ProcessLocalAnnouncement(c20OwnCA(m.C))
-		wait(c20Poll(fut, 10*time.Second))
+		wait(c20Poll(fut, c20Wait()))
 	case "AS":
 		line.A = "AnnSig"
 		local := m.Side == "local"
 		as := c20Half(m.C, local, m.Bad)
 		if local {
 			fut := e.g.ProcessLocalAnnouncement(as)
-			wait(c20Poll(fut, 10*time.Second))
+			wait(c20Poll(fut, c20Wait()))
 		} else {
 			pk := c20Stranger.PubKey()
 			if m.From == "party" {
@@ -327,8 +337,24 @@ func (e *c20PEnv) step(m c20PMsg, out *[]c20PLine) {
 			}
 			peer := &mockPeer{pk, nil, nil, atomic.Bool{}}
 			fut := e.g.ProcessRemoteAnnouncement(context.Background(), as, peer)
-			wait(c20Poll(fut, 10*time.Second))
+			wait(c20Poll(fut, c20Wait()))
 		}
+	case "RC":
+		line.A = "RemoteChan"
+		ca := c20OwnCA(m.C)
+		switch m.Bad {
+		case "none":
+		case "nsig":
+			c20FlipSig(&ca.NodeSig2)
+		case "bsig":
+			c20FlipSig(&ca.BitcoinSig1)
+		default:
+			panic("c20: unknown announcement corruption " + m.Bad)
+		}
+		e.chain.setModeAt(c20OwnScid(m.C).BlockHeight, "ok")
+		peer := &mockPeer{c20PeerKey["p1"].PubKey(), nil, nil, atomic.Bool{}}
+		fut := e.g.ProcessRemoteAnnouncement(context.Background(), ca, peer)
+		wait(c20Poll(fut, c20Wait()))
 	case "RS":
 		line.A, line.Res = "Restart", "ok"
 		e.g.Stop()
@@ -394,7 +420,8 @@ func TestVerifC20Proof(t *testing.T) {
 	}
 	mod, pick := verifkit.EnvInt("VERIF_SWEEP_MOD", 1), verifkit.EnvInt("VERIF_SWEEP_PICK", 0)
 	for i, p := range pairs {
-		if i%mod == pick%mod {
+		// the (few) schedules with the announcement from the network always run
+		if i%mod == pick%mod || strings.HasPrefix(p.Name, "remote:") {
 			jobs = append(jobs, p)
 		}
 	}
